@@ -95,6 +95,7 @@ func init() {
 		"reflect.Zero":                  ext۰reflect۰Zero,
 		"reflect.Indirect":              ext۰reflect۰Indirect,
 		"reflect.Append":                ext۰reflect۰Append,
+		"reflect.AppendSlice":           ext۰reflect۰AppendSlice,
 		"reflect.MakeSlice":             ext۰reflect۰MakeSlice,
 		"reflect.MakeMap":               ext۰reflect۰MakeMap,
 		"reflect.MakeMapWithSize":       ext۰reflect۰MakeMap,
